@@ -367,23 +367,33 @@ where
     let topic_cache = self.acquire_the_topic_cache_guard();
 
     let mut read_state_ref = self.read_state.lock().unwrap();
-    let latest_instant = read_state_ref.latest_instant;
+    let mut latest_instant = read_state_ref.latest_instant;
     let (last_read_sn, hash_to_key_map) = read_state_ref.get_sn_map_and_hash_map();
 
     // loop in case we get a sample that should be ignored, so we try next.
     loop {
-      let (timestamp, cc) =
-        match Self::try_take_undecoded(is_reliable, &topic_cache, latest_instant, last_read_sn)
-          .next()
-        {
-          None => return Ok(None), // no more data available right now
-          Some((ts, cc)) => (ts, cc),
-        };
+      let next_undecoded =
+        Self::try_take_undecoded(is_reliable, &topic_cache, latest_instant, last_read_sn).next();
+      let (timestamp, cc) = match next_undecoded {
+        None => {
+          // no more data available right now
+          // (remember how far we got, in case some samples were skipped)
+          read_state_ref.latest_instant = latest_instant;
+          return Ok(None);
+        }
+        Some((ts, cc)) => (ts, cc),
+      };
 
       let result = self.deserialize_with(timestamp, cc, hash_to_key_map, decoder.clone());
 
       if let Err(ReadError::UnknownKey { .. }) = result {
         // ignore unknown key hash, continue looping
+        // But advance the read pointers past the ignored sample first. Otherwise,
+        // we would get the very same sample again, and loop here forever.
+        let writer_guid = cc.writer_guid;
+        let sequence_number = cc.sequence_number;
+        latest_instant = max(latest_instant, timestamp);
+        last_read_sn.insert(writer_guid, sequence_number);
       } else {
         // return with this result
         // make copies of guid and SN to calm down borrow checker.
